@@ -146,18 +146,18 @@ type World struct {
 	Now     int64
 	Commits []Commit
 	// adversary knowledge
-	Certs    []*Cert          // certificates of phase PROPOSE_VOTE (lock certificates), in order of appearance
-	AllQCs   []*lib.QuorumCertificate // every aggregate certificate that appeared on the network (full or partial)
-	Blocks   map[string][]byte
-	Results  map[string]*lib.CertificateResult
+	Certs   []*Cert                  // certificates of phase PROPOSE_VOTE (lock certificates), in order of appearance
+	AllQCs  []*lib.QuorumCertificate // every aggregate certificate that appeared on the network (full or partial)
+	Blocks  map[string][]byte
+	Results map[string]*lib.CertificateResult
 	// ground truth: who signed which payload in which view (replica votes and crafted ones)
-	Signed map[string]map[int]map[string]bool // viewKey -> validator -> payload set
-	Calls  int64
-	Trace  []string
-	TraceOn bool
-	silent  bool // tail mode: every message of the Byzantine node is lost
-	vs      *lib.ValidatorSet
-	vsNext  *lib.ValidatorSet
+	Signed     map[string]map[int]map[string]bool // viewKey -> validator -> payload set
+	Calls      int64
+	Trace      []string
+	TraceOn    bool
+	silent     bool // tail mode: every message of the Byzantine node is lost
+	vs         *lib.ValidatorSet
+	vsNext     *lib.ValidatorSet
 	roundsBase []uint64 // rounds a node had started before its root-height bumps (rounds restart at 0 on a bump)
 }
 
@@ -175,11 +175,11 @@ func viewKey(v *lib.View) string {
 // mock controller
 
 type mockCtl struct {
-	mu      sync.Mutex
-	w       *World
-	n       *Node
-	rh      uint64
-	syncing atomic.Bool
+	mu       sync.Mutex
+	w        *World
+	n        *Node
+	rh       uint64
+	syncing  atomic.Bool
 	commitCh chan struct{}
 }
 
@@ -200,10 +200,10 @@ func (c *mockCtl) SelfSendBlock(qc *lib.QuorumCertificate, _ uint64) {
 	c.n.Committed = &cm
 	c.commitCh <- struct{}{}
 }
-func (c *mockCtl) LoadRootChainId(uint64) uint64 { return RootChainID }
-func (c *mockCtl) LoadIsOwnRoot() bool           { return false }
-func (c *mockCtl) Syncing() *atomic.Bool         { return &c.syncing }
-func (c *mockCtl) ResetFSM()                     {}
+func (c *mockCtl) LoadRootChainId(uint64) uint64                   { return RootChainID }
+func (c *mockCtl) LoadIsOwnRoot() bool                             { return false }
+func (c *mockCtl) Syncing() *atomic.Bool                           { return &c.syncing }
+func (c *mockCtl) ResetFSM()                                       {}
 func (c *mockCtl) SendCertificateResultsTx(*lib.QuorumCertificate) {}
 func (c *mockCtl) LoadCommittee(_, rh uint64) (lib.ValidatorSet, lib.ErrorI) {
 	if c.w.Cfg.NextPowers != nil && rh > c.w.Cfg.BaseRH {
